@@ -29,6 +29,16 @@ CLAIMED = {
             "+ checked correspondence",
             "Consumption hides exactly the inputs sharing a source or a modifier key with a contributing input, only when the consuming action is "
             "not None, persists for the rest of the frame and is reset by the next one - proved for all readers and inputs." + CORR, "§5 C05"),
+    "C06": ("Lean 4 theorems (sortedness of the registry as an invariant of every reachable application state, by induction over operation "
+            "histories incl. observer-issued and command-issued operations; list-order evaluation; uniqueness of the insertion point) + checked correspondence "
+            "incl. all insertion orders of the pooled context types",
+            "Every reachable registry is sorted by descending priority and the update walks it in list order, so a strictly higher priority type "
+            "is always evaluated (and consumes) first." + CORR, "§5 C06"),
+    "C07": ("Lean 4 theorems (mirror invariant registry <-> world over every reachable state: induction over operation histories; swap_remove as a "
+            "permutation; one group per type, no empty group, no duplicate holder) + checked correspondence incl. exhaustive short op sequences",
+            "Lookup succeeds exactly for current holders in every reachable state; groups exist exactly while a holder exists; a holder arriving "
+            "after the last one left gets a freshly built instance. Panic-freedom of the expect sites is covered by the correspondence (panic "
+            "capture) and, for the data lookups, by C04.no_panic; a full totality theorem is not proved (partial)." + CORR, "§5 C07"),
     "C10": ("Lean 4 theorems (per-step equations; induction over arbitrary state/delta histories) + checked correspondence",
             "Elapsed/fired durations are characterised for every state history and every sequence of non-negative deltas; payload = polled." + CORR, "§5 C10"),
     "C12": ("Lean 4 theorems (log of the evaluation equals the canonical invocation list, for arbitrary machines; independence from consumption) "
